@@ -399,16 +399,19 @@ def strWith (s : List (Option Nat)) (off : Int) (holes : Nat) (ix : Int) (c : Na
     toUnionSetWithItem (newGenericSetFromSet (.str s off holes)) (charV ix c)
   else .ok (finish ((Plain.str s off holes).members ++ [charV ix c]))
 
+/-- the three slicing cases of `String.Without` (first char, last char, a char in between) -/
+def strWithoutCore (s : List (Option Nat)) (off : Int) (holes : Nat) (v : V) : List (Option Nat) × Int × Nat :=
+  match asChar v with
+  | some (ix, c) =>
+    let i := seqIndex s.length off ix
+    if i = 0 ∧ kget s 0 = some c then (s.drop 1, off + 1, holes)
+    else if i = (s.length : Int) - 1 ∧ kget s (s.length - 1) = some c then (s.take (s.length - 1), off, holes)
+    else if 0 < i ∧ i < (s.length : Int) - 1 ∧ kget s i.toNat = some c then (eraseAt s i.toNat, off, holes + 1)
+    else (s, off, holes)
+  | none => (s, off, holes)
+
 def strWithout (s : List (Option Nat)) (off : Int) (holes : Nat) (v : V) : Plain :=
-  let r : List (Option Nat) × Int × Nat :=
-    match asChar v with
-    | some (ix, c) =>
-      let i := seqIndex s.length off ix
-      if i = 0 ∧ kget s 0 = some c then (s.drop 1, off + 1, holes)
-      else if i = (s.length : Int) - 1 ∧ kget s (s.length - 1) = some c then (s.take (s.length - 1), off, holes)
-      else if 0 < i ∧ i < (s.length : Int) - 1 ∧ kget s i.toNat = some c then (eraseAt s i.toNat, off, holes + 1)
-      else (s, off, holes)
-    | none => (s, off, holes)
+  let r := strWithoutCore s off holes v
   if strCount r.1 r.2.2 = 0 then .empty else .str r.1 r.2.1 r.2.2
 
 /-! ### Bytes -/
